@@ -34,7 +34,7 @@ def strategy(tier):
     heavy = (tier == "thorough")
     big = [simgen.scenario(p, big=True) for p in _ALL] if heavy else []
     return st.one_of(*([simgen.scenario(p) for p in _ALL] + big + [simgen.stress(heavy)] * 4
-                       + [simgen.coincide()] * 2 + [simgen.crowd()] * 2))
+                       + [simgen.coincide()] * 2 + [simgen.crowd()] * 2 + [simgen.churn()]))
 
 
 def serialize(case):
